@@ -25,6 +25,8 @@ THEOREMS = [P + t for t in (
     "lookup_spec", "remove_byName", "remove_byName_child", "remove_node_absent_name", "prune_collect_sound", "prune_collect_complete", "prune_api_exact",
     # the generated plans: the model the driver runs is the model the theorems are about
     "plan_bridge", "plan_facts", "remove_interface_exact_wf", "remove_interface_byName",
+    # round 5: after a rename no other name denotes the element; what a lookup finds carries the name now
+    "findChild_rename_ne", "findChild_rename_spec", "findByName_rename_ne",
 )]
 TRUSTED_BASE = [
     "Model/Remove.lean mirrors by hand the bodies of remove_cp_and_links, Interface.get_peers, find_peer_connection_points, "
@@ -36,6 +38,8 @@ TRUSTED_BASE = [
     "Model/RemoveNames.lean mirrors by hand the name lookups (find_node_by_name: none/several raise; find_*_by_name under a parent: "
     "first neighbour; name-keyed dictionaries: last wins) and the collection phase of prune; checked differentially on every "
     "by-name call, including names that resolve to nothing, to another class, to several elements",
+    "rename / the name setter modelled as Dir.rename (the Name of one element changes); the model keeps no lookup index, histories reach it "
+    "as the names that hold after them",
     "networkx Graph.remove_node (node and incident edges disappear) modelled by G.minus; delete_node of the element itself right after "
     "its class check modelled as unconditional; Python set iteration order modelled by list order (the theorems hold for every order); "
     "neighbour order = edge-list order (observable only with equal sibling names, which the API refuses)",
@@ -52,9 +56,11 @@ ASSUMPTIONS = [
 ]
 RULE = ("every applicable removal / disconnect / un-peer / remove-child / remove-interface / prune on topologies built through the public API "
         "from seeded recipes (1-4 nodes, NICs with 1-2 ports, sub-interfaces, facility with 1-3 interfaces, switch, 0-3 services with connected "
-        "interfaces, peerings, explicit links with 1-4 ends, reservation marks; names plain / reused / prefix-related / equal across classes; "
+        "interfaces, peerings, explicit links of every LinkType with 1-4 ends, reservation marks; names plain / reused / prefix-related / equal across classes; "
         "generated or caller-supplied prefix-related node ids; experiment and substrate flavour), each sent to the model by id and by name, plus "
-        "calls whose name resolves to nothing / another class / a node of the wrong kind; non-trivial = the topology has a service with a "
+        "calls whose name resolves to nothing / another class / a node of the wrong kind; histories (by-name lookups through fresh and kept "
+        "handles incl. refused duplicate adds, rename()/name setter of every kind of element, the freed name taken by a new sibling or by a "
+        "renamed sibling, further lookups) followed by every by-name call, each on a topology built afresh; non-trivial = the topology has a service with a "
         "connected interface and the operation deletes at least one element; distinct by (canonical graph, operation)")
 
 LEAN_OP = {"remove_interface": "remove_interface", "remove_node": "remove_node", "remove_switch": "remove_switch", "remove_facility": "remove_facility",
@@ -79,14 +85,45 @@ def recipes(ctx, tag, n):
     rs += [(L.gen_recipe(rng), None) for _ in range(n)]
     # substrate flavour: supplied prefix-related node ids, services of nodes with their own interfaces, remove_interface
     rs += [(L.gen_substrate_recipe(rng), None) for _ in range(max(2, n // 5))]
+    # histories: by-name lookups, renames of every kind of element, re-use of the freed names, then the by-name operations
+    rs += [(r, None) for r in L.history_corner_recipes()]
+    hrng = ctx.sub_rng(tag + "-history")
+    rs += [(L.gen_history_recipe(hrng), None) for _ in range(max(4, n // 4))]
     return rs
 
 
-def run_recipe(recipe, only_ops=None, graph_level=True):
+BYNAME_CALLS = ("remove_node", "remove_switch", "remove_facility", "remove_component", "remove_storage", "node_remove_ns",
+                "remove_network_service", "remove_link", "remove_child", "remove_interface")
+
+
+def run_recipe(recipe, only_ops=None, graph_level=True, per_call=True):
     """Build the topology once, apply every operation to its own restored copy.
     Returns a list of records (one per operation)."""
     import lib_c08 as L
-    b = L.build(recipe)
+    raw = recipe
+    if L.has_history(raw) and per_call and (only_ops is None or len(only_ops) > 1):
+        # a history is judged call by call on a topology built afresh (the sequence lookup .. rename .. re-use .. removal is
+        # then exactly what the implementation saw; restoring the store under it would keep whatever the lookups left behind
+        # in objects, but not what a removal did to it)
+        eff = L.effective(raw)
+        ops = only_ops if only_ops is not None else L.enumerate_ops(eff) + L.enumerate_name_ops(eff)
+        out = []
+        byname = [op for op in ops if op[0] in BYNAME_CALLS and op[-1] != "__absent__"]
+        for op in byname:
+            out.extend(run_recipe(raw, [op], graph_level=False))
+        rest = [op for op in ops if op not in byname]
+        if rest:
+            # calls through handles / names that resolve to nothing: one topology, restored before each call
+            out.extend(run_recipe(raw, rest, graph_level=False, per_call=False))
+        return out
+    try:
+        b = L.build(raw)
+    except Exception as e:
+        if L.has_history(raw):
+            return [{"op": ["build"], "recipe": raw, "skip": "history does not build: %s" % type(e).__name__}]
+        raise
+    # everything below reads the names the elements carry now
+    recipe = L.effective(raw)
     out = []
     try:
         s0 = L.Snap(b.t)
@@ -112,7 +149,9 @@ def run_recipe(recipe, only_ops=None, graph_level=True):
         rfeats = recipe_features(L, recipe, s0)
         for op in ops:
             L.restore(b, sv)
-            rec = {"op": op, "recipe": recipe, "has_conn": has_conn}
+            rec = {"op": op, "recipe": raw, "has_conn": has_conn}
+            if b.lookups:
+                rec["history"] = True
             # --- what the property demands, and the requests for the model (all from the pre-state only)
             try:
                 if op[0].startswith("g_"):
@@ -206,6 +245,9 @@ def recipe_features(L, recipe, s0):
     for c, v in s0.nodes.items():
         if v[0] == "Link" and len(L.link_ends(s0, c, adj)) >= 3:
             f.add("link-with-3+-ends")
+            f.add("link-with-%d-ends:%s" % (min(len(L.link_ends(s0, c, adj)), 4), v[1]))
+        elif v[0] == "Link" and len(L.link_ends(s0, c, adj)) == 2 and not any(s0.nodes[e][1] == "ServicePort" for e in L.link_ends(s0, c, adj)):
+            f.add("link-with-2-ends:%s" % v[1])
     for st in steps.get("facility", []):
         conn = [x for x in used if x[0] == "f" and x[1] == st[1]]
         if st[3] >= 2 and 0 < len(conn) < st[3]:
